@@ -482,6 +482,10 @@ def step (st : DState) (line : String) : DState × String :=
     let dr : Spec.Drawing := { nodes := (lst ns).filterMap pair, clusters := (lst cs).filterMap pair,
                                edges := (lst es).filterMap edge }
     (st, bit (Spec.drawingOK st.h top dr))
+  | ["IO", "to_dict", top] => (st, showM (Model.toDict st.h top) printDict)
+  | ["IO", "from_dict", fresh, d] => match parseDict d with
+    | .ok D => (st, showM (Model.fromDict D fresh) fun r => s!"{r.1} {printHier r.2}")
+    | .error e => (st, s!"parse-error {e}")
   | ["IT", "iter", c] => (st, showM (Model.iterAll st.h (st.h.length + 2) c) cj)
   | ["IT", "view", c] => (st, showM (Model.viewIter st.h c) cj)
   | ["S", h, ng] => match parseHier h, parseNg ng with
